@@ -17,7 +17,8 @@ Executable model on `Int`/`Nat`/`Rat`, core Lean only.  Source anchors (file: fu
   `hasMeshSymmetry`/`latticeEquiv`; `GridPoints._set_ir_qpoints` ↦ `setIrQpoints`; `GridPoints.__init__`
   (incl. the generic-shift path) ↦ `gridPoints`; `length2mesh` ↦ `length2mesh` (the products
   `|a*_k|·length` are inputs: `sqrt` is not modelled).
-* weighted mesh sums (`thermal_properties.py`, `dos.py` smearing) ↦ `weightedSum`.
+* weighted mesh sums (`thermal_properties.py`, `dos.py` smearing) ↦ `weightedSum`; `phonon/moment.py:
+  PhononMoment._get_moment` ↦ `moment` / `powerSum`.
 
 `fit_in_BZ` relocation (float geometry in spglib `relocate_BZ_grid_address` and
 `get_qpoints_in_Brillouin_zone`) is not modelled: q-points are the unrelocated ones.
@@ -161,6 +162,23 @@ def weightedSum {α : Type} [Add α] [Mul α] [OfNat α 0] [NatCast α] (w : Lis
 /-- plain sum over the full mesh -/
 def fullSum {α : Type} [Add α] [OfNat α 0] (n : Nat) (F : Nat → α) : α :=
   ((List.range n).map F).foldr (· + ·) 0
+
+/-! ### phonon state moments (`phonopy/phonon/moment.py: PhononMoment._get_moment`) -/
+
+/-- `x ** k` for a natural exponent -/
+def powN {α : Type} [Mul α] [NatCast α] (x : α) : Nat → α
+  | 0 => ((1 : Nat) : α)
+  | k + 1 => powN x k * x
+
+/-- `Σ_band [fmin < ν < fmax] ν^order` at one q-point -/
+def powerSum {α : Type} [Add α] [Mul α] [OfNat α 0] [NatCast α] [LT α] [DecidableRel (fun a b : α => a < b)]
+    (order : Nat) (fmin fmax : α) (fs : List α) : α :=
+  ((fs.filter fun f => decide (fmin < f) && decide (f < fmax)).map fun f => powN f order).foldr (· + ·) 0
+
+/-- `_get_moment`: `Σ_q w_q Σ_band ν^order / Σ_q w_q Σ_band 1` over the modes inside the frequency window -/
+def moment {α : Type} [Add α] [Mul α] [Div α] [OfNat α 0] [NatCast α] [LT α] [DecidableRel (fun a b : α => a < b)]
+    (order : Nat) (fmin fmax : α) (w : List Nat) (freqs : List (List α)) : α :=
+  weightedSum w (freqs.map (powerSum order fmin fmax)) / weightedSum w (freqs.map (powerSum 0 fmin fmax))
 
 /-! ### `_shift2boolean` -/
 
